@@ -46,7 +46,7 @@ def op_strategy(resets=True, gens=True, burn=False):
     if resets:
         alts.append((1, st.just(("x",))))
     if gens:
-        alts.append((3, st.tuples(st.just("g"), st.integers(0, 11), BIG, SIDE, KS)))
+        alts.append((5, st.tuples(st.just("g"), st.integers(0, 23), BIG, SIDE, KS)))
     return weighted(alts)
 
 
